@@ -235,10 +235,14 @@ def _doc_job(job):
         seen = {s0}
         front = [[]]
         depth = 0
-        while front and depth < 12:
+        budget = 40          # distinct changed states expanded (a state-changing op usually changes the state on EVERY call: unbounded graph)
+        while front and depth < 12 and budget > 0 and not acc.nviol:
             nxt = []
             for h in front:
                 for cn in changing:
+                    if budget <= 0:
+                        break
+                    budget -= 1
                     d, _ = kp.loads(text)
                     opmap = {o[0]: o for o in ops}
                     for x in h + [cn]:
@@ -259,8 +263,8 @@ def _doc_job(job):
                             acc.violation(Viol('history', 'result-differs-from-a-fresh-import', dict(case0, history=h + [cn, op[0]], op=op[0]), base[op[0]][1][:200], r[1][:200]))
             front = nxt
             depth += 1
-        if front:
-            acc.caps.append(f'{name}: state-changing histories explored to depth 12 only')
+        if front and not acc.nviol:
+            acc.caps.append(f'{name}: state-changing histories explored to depth {depth} / 40 expansions only')
     else:
         acc.count('docs_closed_at_depth_1')
     acc.sample({'doc': name, 'ops': [o[0] for o in ops][:12] + ['...'], 'n_ops': len(ops), 'pairs': len(ops) ** 2}, cap=1)
